@@ -107,3 +107,92 @@ register_extractor('guard_conjuncts', guard_conjuncts)
 register_extractor('return_expr', return_expr)
 register_extractor('flag_branches', flag_branches)
 register_extractor('assign_text', assign_text)
+
+
+# ------------------------------------------------------------------ effect skeletons (C20)
+EFFECT_CALLS = {
+    'deferred_open': 'OpenDeferred', 'open': 'OpenTruncate',
+    'vermouth.gmx.itp.write_molecule_itp': 'WriteTmp', 'write_molecule_itp': 'WriteTmp',
+    'vermouth.gmx.gro.write_gro': 'WriteDeferred', 'write_gro': 'WriteDeferred',
+    'json.dump': 'Dump',
+}
+
+
+def _callee(node):
+    f = node.func
+    parts = []
+    while isinstance(f, ast.Attribute):
+        parts.append(f.attr)
+        f = f.value
+    if isinstance(f, ast.Name):
+        parts.append(f.id)
+        return '.'.join(reversed(parts))
+    if isinstance(f, ast.Call):      # e.g. DeferredFileWriter().write
+        inner = _callee(f)
+        return (inner or '?') + '().' + '.'.join(reversed(parts))
+    return None
+
+
+def _effects_in(node):
+    out = []
+    for n in ast.walk(node):
+        if isinstance(n, ast.Call):
+            c = _callee(n)
+            if c == 'DeferredFileWriter().write':
+                out.append('Flush')
+            elif c in EFFECT_CALLS:
+                if c == 'open':
+                    mode = ast.unparse(n.args[1]) if len(n.args) > 1 else "'r'"
+                    if 'w' not in mode and 'a' not in mode and '+' not in mode:
+                        continue
+                out.append(EFFECT_CALLS[c])
+    return out
+
+
+def effect_skeleton(repo, spec):
+    """ordered list of (kind, text) for the top-level statements of a program function:
+    Stage = may raise, no file effect; OpenDeferred / WriteTmp / WriteDeferred = write to a
+    temporary file only; Flush = DeferredFileWriter().write(); OpenTruncate / Dump = direct
+    write to the output path; Nested <k> = file effect hidden inside a compound statement"""
+    src = Source(repo, spec['file'])
+    fn = src.find_def(spec['func'])
+    items = []
+
+    def emit(kind, node):
+        text = ast.unparse(node).split('\n')[0][:70]
+        items.append((kind, text))
+
+    def visit(stmts, nested):
+        for st in stmts:
+            if isinstance(st, ast.Expr) and isinstance(st.value, ast.Constant):
+                continue
+            if isinstance(st, ast.With):
+                kinds = [k for item in st.items for k in _effects_in(item.context_expr)]
+                for k in kinds:
+                    emit(k, st.items[0].context_expr)
+                if not kinds:
+                    emit('Stage', st.items[0].context_expr)
+                visit(st.body, nested)
+                continue
+            effs = _effects_in(st)
+            if isinstance(st, (ast.If, ast.For, ast.While, ast.Try)):
+                if effs:
+                    for k in effs:
+                        emit('Nested' + k, st)
+                else:
+                    emit('Stage', st)
+                continue
+            if effs:
+                for k in effs:
+                    emit(k, st)
+            else:
+                emit('Stage', st)
+    visit(fn.body, False)
+    where, sha = src.stamp(fn)
+    rows = "; ".join(f"({k}, {coq_string(t)})" for k, t in items)
+    text = (f"(* {spec['name']} <- {where} sha256={sha} *)\n"
+            f"Definition {spec['name']} : list (stmt_kind * string) := [{rows}].\n")
+    return text, {'name': spec['name'], 'where': where, 'sha256': sha}
+
+
+register_extractor('effect_skeleton', effect_skeleton)
